@@ -454,7 +454,10 @@ def run(ctx):
                        "option vectors are observed by wrapping arg_parser_init/get_port_map inside the real run() on an empty capture"]
     ctx.gen_tables = extract.all_tables()
     import export_props_thms, file_corr     # whole-program form (Props/ExportProps) about TLX.Export.framesFrom, tied file to file
-    ctx.prove(["TLX.Props.C10"] + export_props_thms.MODULES)
+    import translate                 # decision-logic functions re-translated from the source and proved equal to the model
+    _tm, _tt = translate.wire(ctx, "C10")
+    ctx.prove(["TLX.Props.C10"] + export_props_thms.MODULES + _tm)
+    ctx.require_theorems(_tt)
     ctx.require_theorems(THEOREMS + export_props_thms.THEOREMS_C10)
     file_corr.correspond(ctx, ctx.n(12, 200))     # ties the whole-program model (ExportProps' subject) file to file
     explore(ctx)
